@@ -22,6 +22,15 @@ import sys
 from . import guesser, scratch
 
 _CUR = [None]          # current SessionCtx
+DEFAULT_KNOBS = {}     # per-run tuning knobs that apply to every process image of the run (set by the check's run_one)
+QUEUE_SIZES = [None, None, None, 3, 10, 40, 200]
+
+
+def draw_queue_knob(t):
+    """PcfgQueue.max_queue_size ("the maximum number of items before trimming the queue") is a tuning parameter of the
+    class (default 50 000, which no small world reaches): drawn per run so that nothing silently depends on it"""
+    DEFAULT_KNOBS["max_queue_size"] = t.choice(QUEUE_SIZES)
+    return DEFAULT_KNOBS["max_queue_size"]
 _INSTALLED = [False]
 
 
@@ -206,6 +215,13 @@ def install():
     from lib_guesser.priority_queue import PcfgQueue
 
     class RecordingQueue(PcfgQueue):
+        def __init__(self, *a, **kw):
+            PcfgQueue.__init__(self, *a, **kw)
+            ctx = _CUR[0]
+            size = (ctx.knobs.get("max_queue_size") if ctx is not None else None) or DEFAULT_KNOBS.get("max_queue_size")
+            if size:
+                self.max_queue_size = size
+
         def next(self):
             item = PcfgQueue.next(self)
             ctx = _CUR[0]
